@@ -638,7 +638,8 @@ package template
 //@   serves C01 C08
 //@   option nopanic
 //@   option termination unchecked
-//@   requires !isnil(e) && !isnil(e.ns) && !isnil(n) && !isnil(e.textNodeEdits)
+//@   option embedded nameSpace.esc
+//@   requires !isnil(e.ns) && !isnil(n) && !isnil(e.textNodeEdits)
 //@   option modifies map[int]opaque#dom map[int]opaque#val
 //@   requires wf: c.state <= stateError && c.delim <= delimSpaceOrTagEnd && (c.delim != delimNone ==> c.state == stateAttr) && (c.state == stateText ==> !isspecial(c.element.name))
 //@   ensures wfout: r.state <= stateError && r.delim <= delimSpaceOrTagEnd && (r.delim != delimNone ==> r.state == stateAttr) && (r.state == stateText ==> !isspecial(r.element.name))
@@ -842,3 +843,29 @@ package template
 //@   ensures treesfresh: onlyfresh("TT_Template.Tree parse_Tree.Name#b parse_Tree.Name#o parse_Tree.Name#l")
 //@   loop 1
 //@     invariant copyintofresh: onlyfresh("map[seq]box:context#dom map[seq]box:context#val")
+
+//@ func (e *escaper) escapeTemplate(c context, n *parse.TemplateNode) (r context)
+//@   serves C05 C06 C08
+//@   option embedded nameSpace.esc
+//@   option allocates
+//@   option modifies @ANALYSISMAPS @DERIVEDTREES
+//@   requires !isnil(n) && !isnil(e.ns) && !isnil(e.ns.set) && !isnil(e.templateNodeEdits)
+//@   requires escmaps: !isnil(e.output) && !isnil(e.derived) && !isnil(e.called)
+//@   requires members: forallkey(w, haskeym(e.ns.set, w) ==> !isnil(e.ns.set[w]) && !isnil(e.ns.set[w].text))
+//@   requires derivedok: forallkey(w, haskeym(e.derived, w) ==> !isnil(e.derived[w]))
+//@   requires editkeys: forallref(p, haskeym(e.actionNodeEdits, p) || haskeym(e.templateNodeEdits, p) || haskeym(e.textNodeEdits, p) ==> !isnil(p))
+
+//@ func (e *escaper) escape(c context, n parse.Node) (r context)
+//@   serves C05 C08 C01
+//@   option embedded nameSpace.esc
+//@   option allocates
+//@   option nopanic
+//@   option modifies @ANALYSISMAPS @DERIVEDTREES
+//@   requires !isnil(e.ns) && !isnil(e.ns.set)
+//@   requires escmaps: !isnil(e.output) && !isnil(e.derived) && !isnil(e.called) && !isnil(e.actionNodeEdits) && !isnil(e.templateNodeEdits) && !isnil(e.textNodeEdits)
+//@   requires members: forallkey(w, haskeym(e.ns.set, w) ==> !isnil(e.ns.set[w]) && !isnil(e.ns.set[w].text))
+//@   requires derivedok: forallkey(w, haskeym(e.derived, w) ==> !isnil(e.derived[w]))
+//@   requires editkeys: forallref(p, haskeym(e.actionNodeEdits, p) || haskeym(e.templateNodeEdits, p) || haskeym(e.textNodeEdits, p) ==> !isnil(p))
+//@   requires wf: c.state <= stateError && c.delim <= delimSpaceOrTagEnd && (c.delim != delimNone ==> c.state == stateAttr) && (c.state == stateText ==> !isspecial(c.element.name))
+//@   requires actionnodes: forallref(p, !isnil(p) ==> !isnil(asref(p, "parse_ActionNode").Pipe) && forall(k, 0, len(asref(p, "parse_ActionNode").Pipe.Cmds), !isnil(at(asref(p, "parse_ActionNode").Pipe.Cmds, k)) && len(at(asref(p, "parse_ActionNode").Pipe.Cmds, k).Args) > 0))
+//@   ensures unknownkind: isnil(n) ==> r.state == stateError && !isnil(r.err)
